@@ -75,10 +75,50 @@ def check_sequence(lang, batch, seq, fail, on_step=None):
     return obs
 
 
+def snapshot_selftest(rng):
+    """the observation must see every kind of change to result objects; returns the kinds it missed"""
+    from depccg.cat import Category
+    missed = []
+
+    def tree_with_inner():
+        while True:
+            b = [rc.sentence(rng, 'en', full=True, nbest=2), rc.placeholder()]
+            if not b[0][0].tree.is_leaf:
+                return b
+    edits = {
+        'token key removed': lambda b: b[0][0].tree.tokens[0].pop('lemma'),
+        'token key renamed': lambda b: b[0][0].tree.tokens[0].__setitem__('surf', b[0][0].tree.tokens[0].pop('word')),
+        'token value replaced': lambda b: b[0][0].tree.tokens[0].__setitem__('pos', 'ZZ'),
+        'token key order': lambda b: b[0][0].tree.tokens[0].__setitem__('word', b[0][0].tree.tokens[0].pop('word')),
+        'token key added': lambda b: b[1][0].tree.tokens[0].__setitem__('cat', 'NP'),
+        'token attribute set': lambda b: setattr(b[0][0].tree.tokens[0], 'seen', True),
+        'tree attribute added': lambda b: setattr(b[0][0].tree, '_cache', 'x'),
+        'label replaced': lambda b: setattr(b[0][0].tree, 'op_string', b[0][0].tree.op_string + '!'),
+        'head flag flipped': lambda b: setattr(b[0][0].tree, 'head_is_left', not b[0][0].tree.head_is_left),
+        'children reversed': lambda b: b[0][0].tree.children.reverse(),
+        'children list replaced by an equal list': lambda b: setattr(b[0][0].tree, 'children', list(b[0][0].tree.children)),
+        'category replaced by an equal category': lambda b: setattr(b[0][0].tree, 'cat', Category.parse(str(b[0][0].tree.cat))),
+        'n-best list reordered': lambda b: b[0].reverse(),
+        'sentence removed': lambda b: b.pop(),
+        'scored tree replaced by an equal tuple': lambda b: b[1].__setitem__(0, rc.ScoredTree(b[1][0].tree, b[1][0].score)),
+    }
+    for name, edit in edits.items():
+        b = tree_with_inner()
+        s0 = rc.snapshot(b)
+        if rc.snapshot(b) != s0:
+            missed.append('snapshot not stable')
+        edit(b)
+        if rc.snapshot(b) == s0:
+            missed.append(name)
+    return missed
+
+
 def run(ctx):
     rng = ctx.rng
     ctx.build(['P_C18.vo'], gens=('tables', 'render'))
     ctx.theorems('P_C18')
+    missed = snapshot_selftest(rng)
+    ctx.obligation('observation: the deep snapshot sees 15 kinds of edits of result objects (self-test)', not missed, f'not seen: {missed}')
     formats, cli = rc.cli_formats()
     try:
         modelled = rc.modelled_formats()
